@@ -311,19 +311,22 @@ type faultyReader struct {
 	calls int
 	fail  int  // call index to fail (-1 never)
 	short bool // short count + error instead of 0 + error
+	kind  int  // 0 errSource | 1 an error wrapping io.EOF (a dropped connection) | 2 a plain io.EOF (the source ends early)
 }
 
 var errSource = errors.New("verif: injected source failure")
+var errWrappedEOF = fmt.Errorf("verif: connection lost: %w", io.EOF)
 
 func (r *faultyReader) ReadAt(p []byte, off int64) (int, error) {
 	i := r.calls
 	r.calls++
 	if i == r.fail {
+		err := []error{errSource, errWrappedEOF, io.EOF}[r.kind]
 		if r.short && len(p) > 1 && off < int64(len(r.data)) {
 			k := copy(p[:len(p)/2], r.data[off:])
-			return k, errSource
+			return k, err
 		}
-		return 0, errSource
+		return 0, err
 	}
 	if off >= int64(len(r.data)) {
 		return 0, io.EOF
@@ -348,7 +351,7 @@ func readAll(r io.ReaderAt, size int64, cols []ref.Column, opts ...parquet.FileO
 	}
 	for _, rg := range f.RowGroups() {
 		rr := rg.Rows()
-		got, err := pq.ReadAllRows(rr, 50)
+		got, err := readRowsStrict(rr, 50)
 		rr.Close()
 		rows = append(rows, got...)
 		if err != nil {
@@ -376,6 +379,33 @@ func readAll(r io.ReaderAt, size int64, cols []ref.Column, opts ...parquet.FileO
 	return rows, nil, nil
 }
 
+// readRowsStrict drains a row reader; only io.EOF itself is the end (a source
+// error that wraps io.EOF, like a dropped connection, is a failure).
+func readRowsStrict(r parquet.RowReader, batch int) ([]parquet.Row, error) {
+	var out []parquet.Row
+	buf := make([]parquet.Row, batch)
+	zero := 0
+	for {
+		n, err := r.ReadRows(buf)
+		for _, row := range buf[:n] {
+			out = append(out, row.Clone())
+		}
+		if err == io.EOF {
+			return out, nil
+		}
+		if err != nil {
+			return out, err
+		}
+		if n == 0 {
+			if zero++; zero > 3 {
+				return out, fmt.Errorf("ReadRows returned 0, nil repeatedly")
+			}
+		} else {
+			zero = 0
+		}
+	}
+}
+
 // errIncompleteColumn marks a column page reader that ended cleanly before its column was complete.
 type errIncompleteColumn struct {
 	col       int
@@ -400,7 +430,7 @@ func readColumnPages(f *parquet.File, cols []ref.Column, numRows int) error {
 			p, err := pages.ReadPage()
 			if err != nil {
 				pages.Close()
-				if errors.Is(err, io.EOF) {
+				if err == io.EOF { // the end is io.EOF itself: an error that wraps it (a dropped connection) is a failure
 					break
 				}
 				return err
@@ -476,7 +506,28 @@ func runRead(c Case, o *kit.Obs) *kit.Failure {
 	regions := map[string]bool{}
 	// 1. truncation: every strict prefix, opened with its own length and with the true length
 	stride := boundedStride(c, size)
+	var points []int
 	for n := c.Phase % stride; n < size; n += stride {
+		points = append(points, n)
+	}
+	// aimed: the file ends exactly where a page starts, or between a page header and its body
+	// (a read that begins there gets zero bytes and a plain io.EOF)
+	if pf != nil {
+		aimed := 0
+		for gi := range pf.RowGroups {
+			for ci := range pf.RowGroups[gi].Chunks {
+				for pi := range pf.RowGroups[gi].Chunks[ci].Pages {
+					pg := &pf.RowGroups[gi].Chunks[ci].Pages[pi]
+					if aimed < kit.Pick(60, 400) && pg.Offset > 0 && int(pg.BodyOffset) < size {
+						points = append(points, int(pg.Offset), int(pg.BodyOffset))
+						aimed += 2
+					}
+				}
+			}
+		}
+		o.Metric("truncation_at_page_boundaries", aimed)
+	}
+	for _, n := range points {
 		for mode := 0; mode < 2; mode++ {
 			var rows []parquet.Row
 			var err error
@@ -506,21 +557,22 @@ func runRead(c Case, o *kit.Obs) *kit.Failure {
 	}
 	// 2. source faults: every ReadAt call of the baseline, failing outright or with a short count
 	for i := 0; i < ncalls; i++ {
-		for _, short := range []bool{false, true} {
-			src := &faultyReader{data: data, fail: i, short: short}
+		for mode := 0; mode < 6; mode++ {
+			short := mode%2 == 1
+			src := &faultyReader{data: data, fail: i, short: short, kind: mode / 2}
 			rows, err, p := readAll(src, int64(size), cols)
 			var sl *silentLoss
 			if errors.As(err, &sl) {
-				return kit.Failf("c14/source/column-pages-silent-loss", "ReadAt call %d of %d failing (short=%v): %v", i, ncalls, short, sl)
+				return kit.Failf("c14/source/column-pages-silent-loss", "ReadAt call %d of %d failing (short=%v kind=%d): %v", i, ncalls, short, mode/2, sl)
 			}
 			if p != nil {
-				return kit.Failf("c14/source/panic", "ReadAt call %d of %d failing (short=%v): panic: %v", i, ncalls, short, p)
+				return kit.Failf("c14/source/panic", "ReadAt call %d of %d failing (short=%v kind=%d): panic: %v", i, ncalls, short, mode/2, p)
 			}
 			if d := prefixOK(cols, want, rows); d != "" {
-				return kit.Failf("c14/source/altered-rows", "ReadAt call %d of %d failing (short=%v): delivered rows differ from the written ones: %s (err=%v)", i, ncalls, short, d, err)
+				return kit.Failf("c14/source/altered-rows", "ReadAt call %d of %d failing (short=%v kind=%d): delivered rows differ from the written ones: %s (err=%v)", i, ncalls, short, mode/2, d, err)
 			}
 			if err == nil && len(rows) != len(want) {
-				return kit.Failf("c14/source/missing-rows", "ReadAt call %d of %d failing (short=%v): read completed without error with %d of %d rows", i, ncalls, short, len(rows), len(want))
+				return kit.Failf("c14/source/missing-rows", "ReadAt call %d of %d failing (short=%v kind=%d): read completed without error with %d of %d rows", i, ncalls, short, mode/2, len(rows), len(want))
 			}
 			if err == nil {
 				o.Metric("source_faults_survived_with_complete_rows", 1)
